@@ -299,6 +299,11 @@ def check_dir2(item):
         b1 = assemble(asm, text, ADDR)
         if b1 is None or (isinstance(b1, tuple) and b1 and b1[0] == 'error'):
             return text, b1, None, None
+        # what the assembler returns must be bytes
+        for b in b1:
+            lo, hi = rng(b)
+            if (lo < 0 or hi > 255) and path.branch(z3.Or(bv(b) < 0, bv(b) > 255)):
+                return text, b1, 'not-bytes', None
         snap = [0] * 65536
         for k, b in enumerate(b1):
             snap[ADDR + k] = b
@@ -322,6 +327,11 @@ def check_dir2(item):
             res['violations'].append(dict(key='%s:exception' % name, text='%s: %r' % (name, out_[1]), case=dict(kind='dir2', tpl=tpl, spelling=kind)))
             return
         text, b1, stmts, b2 = out_
+        if stmts == 'not-bytes':
+            r, mod = p.check(model=True)
+            vals = {n_: mod.eval(z3.BitVec(n_, W), model_completion=True).as_long() for n_ in ('vb', 'vb2', 'vw', 'vo')}
+            res['violations'].append(dict(key='%s:not-bytes' % name, text='%s with %r: the assembler returns a value outside 0-255' % (name, vals), case=dict(kind='dir2', tpl=tpl, spelling=kind, vals=vals)))
+            return
         if stmts is None:
             # the assembler did not accept this spelling for these values: nothing to round-trip (direction 2 is conditional)
             res['discharged'] += 1
@@ -410,6 +420,8 @@ def replay(case):
         b1 = asm.assemble(text, ADDR)
         if not b1:
             return False, 'assembler rejects %r' % text
+        if any(not 0 <= b <= 255 for b in b1):
+            return True, '%r assembles to %r, which is not a sequence of bytes' % (text, list(b1))
         snap = [0] * 65536
         snap[ADDR:ADDR + len(b1)] = b1
         d = dis.Disassembler(snap, real_cfg(False, False))
